@@ -654,6 +654,7 @@ pub fn run_c12(ctx: &Ctx) -> i32 {
     });
     let samples = sample_paths(&out, &alphabet, 3);
     extra["attempts_by_non_admins_handed_to_the_router_directly"] = json!(direct);
+    extra["admin_changes_under_an_api_that_normalises"] = json!(super::envelope::normalising_api_admin_stage(ctx));
     finish_explore(
         ctx,
         &[("admin-migration", &out)],
